@@ -72,6 +72,30 @@ pub fn run(ctx: &mut Ctx) {
         } else {
             e0
         };
+        // once in a while a leaf wrapped 4097..6000 times (far deeper than anything else here): obscuring its core keeps
+        // the digest and does not panic - and nothing about the calls that follow on this thread changes
+        if case % 3001 == 5 {
+            ctx.eval();
+            ctx.count("very_deep_wraps");
+            let depth = *rng.pick(&[4097usize, 5000, 6000]);
+            let core = Envelope::new(format!("core-{}", case));
+            let mut deep = core.clone();
+            for _ in 0..depth {
+                deep = deep.wrap_envelope();
+            }
+            let set = gen::digest_set(&[gen::root_digest(&core)]);
+            for act in ACTS {
+                let k2 = fresh_key(&mut rng);
+                match trap::guard(|| deep.elide_removing_set_with_action(&set, &gen::action(act, &k2))) {
+                    Ok(r) => {
+                        if gen::root_digest(&r) != gen::root_digest(&deep) {
+                            ctx.violation(&format!("very-deep/root-digest/{:?}", act), "obscuring the core of a very deeply wrapped leaf changed the root digest", J::i(depth as u64));
+                        }
+                    }
+                    Err(p) => ctx.violation(&format!("very-deep/panic/{:?}/{}", act, p.signature()), &format!("{:?}", p), J::i(depth as u64)),
+                }
+            }
+        }
         let key = fresh_key(&mut rng);
         // every 25th case: an assertion decorated twice without wrapping, its bare assertion present or obscured
         let e0 = if case % 25 == 3 {
